@@ -1009,6 +1009,17 @@ class PDFSimpleFont(PDFFont):
         except KeyError:
             raise PDFUnicodeNotDefined(None, cid)
 
+    def char_width(self, cid: int) -> float:
+        # Metrics that are keyed by character (the standard 14 fonts) belong
+        # to the glyph that the font's encoding selects. A ToUnicode entry
+        # changes the extracted text, not the glyph and its width.
+        cid_width = safe_float(self.widths.get(cid))
+        if cid_width is None and cid in self.cid2unicode:
+            cid_width = safe_float(self.widths.get(self.cid2unicode[cid]))
+        if cid_width is None:
+            cid_width = self.default_width
+        return cid_width * self.hscale
+
 
 class PDFType1Font(PDFSimpleFont):
     def __init__(self, rsrcmgr: "PDFResourceManager", spec: Mapping[str, Any]) -> None:
